@@ -1,5 +1,6 @@
 import Driver.State
-import TakVerif.Generated.FuncsFPA
+import Driver.OpsEval
+import TakVerif.Generated.FuncsEval
 namespace Driver
 open Tak Codec
 
@@ -8,6 +9,11 @@ open Tak Codec
 an exhausted loop fuel prints `fuel`. -/
 
 private def b01 (x : Bool) : Nat := if x then 1 else 0
+
+/-- the model's `WinDetails` as the regenerated struct (`RoadWin = 0`, `FlatsWin = 1`) -/
+def genDetails (d : WinDetails) : Gen.WinDetails :=
+  { Over := d.over, Reason := if d.reason == .road then 0 else 1, Winner := BitVec.ofNat 8 d.winner.code,
+    WhiteFlats := d.whiteFlats, BlackFlats := d.blackFlats }
 
 private def genMove : List Int → Option Gen.Move
   | [x, y, t, s] => some { X := x, Y := y, Type_ := BitVec.ofInt 8 t, Slides := BitVec.ofInt 32 s }
@@ -28,6 +34,22 @@ def handleFnGen : Handler := fun st op args =>
           let (over, w) := Gen.positionGameOver p.black p.caps p.standing p.white p.blackCaps p.blackStones
             p.cfg.blackWinsTies p.c.Mask (BitVec.ofNat 8 hr.1.code, hr.2) p.whiteCaps p.whiteStones
           s!"{(Gen.positionToMove p.move).toNat} {cw} {cb} {fw.toNat} {b01 over} {w.toNat}")
+    | _ => none
+  else if op == "fn.evalterm" then
+    match args with
+    | [wtok, ptok] =>
+      some (st, withPos ptok fun p => withWeights wtok p.cfg.size fun w =>
+        -- accessor parameters (`WhiteStones()`, `WinDetails()` ...) are supplied by the hand model of the position
+        toString (Gen.evaluateTerminal p.blackStones.toNat p.move p.cfg.size p.whiteStones.toNat (genDetails p.winDetails) p.move
+          (w.at Facts.fTerminalFlats) (w.at Facts.fTerminalOpponentReserves) (w.at Facts.fTerminalPlies) (w.at Facts.fTerminalReserves)))
+    | _ => none
+  else if op == "fn.evalwinner" then
+    match args with
+    | [ptok] =>
+      some (st, withPos ptok fun p =>
+        let hr := p.hasRoad
+        toString (Gen.evaluateWinner p.black p.caps p.standing p.white p.blackCaps p.blackStones p.cfg.blackWinsTies p.c.Mask
+          (BitVec.ofNat 8 hr.1.code, hr.2) p.move p.whiteCaps p.whiteStones))
     | _ => none
   else
   match op, args.mapM String.toInt? with
